@@ -2,6 +2,7 @@ import LyModel.XPath.LemmasParse
 import LyModel.XPath.LemmasLex
 import LyModel.XPath.LemmasLexRt
 import LyModel.XPath.LemmasParseA
+import LyModel.XPath.LemmasLexRtA
 /-!
 # C08 — libyang's XPath tokenizer and parser against XPath 1.0 §3
 
@@ -122,12 +123,33 @@ theorem parse_tokens_abbrev_roundtrip (e : Expr) (hw : wf e = true) (hh : height
     ∃ pushes, parseToks (atoks e) = some (e, pushes) :=
   LemmasParseA.parseToks_rtoks e hw hh
 
+/-- ABBREVIATED SYNTAX, whole expressions, on BYTES: `parse (lead ++ renderAW bs e) = some e` — the abbreviated text of `e`
+(`child::` omitted, `@`, `.`, `..` wherever they apply), written with any non-empty blank strings `bs` after its tokens and
+any leading blanks, denotes `e`, the tree with every abbreviation expanded.  Together with `parse_render_ws_roundtrip` (the
+unabbreviated text) and `abbrev_dslash_*` (`//`) this covers the abbreviations of REC §2.5. -/
+theorem parse_render_abbrev_roundtrip (e : Expr) (hw : wf e = true) (hh : height e ≤ XpConsts.maxBlockDepth)
+    (bs : List Bytes) (hb : Blanks bs) (lead : Bytes) (hl : ∀ c ∈ lead, Path.isWs c = true) :
+    parse (lead ++ renderAW bs e) = some e := by
+  obtain ⟨ps, hp⟩ := LemmasParseA.parseToks_rtoks e hw hh
+  have hlx := LemmasLexRtA.lex_renderW_lead e hw bs hb lead hl
+  unfold parse parseFull
+  cases h : lex (lead ++ renderAW bs e) with
+  | error er => simp [h, Except.toOption] at hlx
+  | ok ts =>
+    have : ts.map ptOf = atoks e := by simpa [h, Except.toOption] using hlx
+    simp [this, hp]
+
 /-- non-vacuity: `/a/@b[. = ../c]` — its abbreviated tokens differ from the canonical ones -/
 private def sampleA : Expr :=
   .path .root [.mk .child (.name none [0x61]) [], .mk .attribute (.name none [0x62])
     [.bin .eq (.path .ctx [.mk .self .node []]) (.path .ctx [.mk .parent .node [], .mk .child (.name none [0x63]) []])]]
 example : wf sampleA = true ∧ height sampleA ≤ XpConsts.maxBlockDepth ∧ (atoks sampleA).length = 12 ∧ (rtoks sampleA).length = 25 := by
   decide
+/-- its abbreviated text with single blanks: `/ a / @ b [ . = .. / c ] ` -/
+example : renderAW [] sampleA = [47, 32, 97, 32, 47, 32, 64, 32, 98, 32, 91, 32, 46, 32, 61, 32, 46, 46, 32, 47, 32, 99, 32, 93, 32] := by
+  decide
+example : parse (renderAW [] sampleA) = some sampleA := by
+  simpa using parse_render_abbrev_roundtrip sampleA (by decide) (by decide) [] (by intro b hb; cases hb) [] (by intro c hc; cases hc)
 
 def stepToks (ax : Axis) : List PT := [(.axisname, axisBytes ax), tDcolon, (.nodetype, [0x6e, 0x6f, 0x64, 0x65]), tPar1, tPar2]
 
